@@ -156,6 +156,12 @@ func (h *Handler) send(ctx context.Context, conn *net.UDPConn, queue chan data, 
 				}
 				h.onError(conn, e)
 			}
+			if len(body) > len(buffer)-8 {
+				// a result that does not fit into one datagram is an error of that call, not of the server
+				index |= 0x8000
+				body = convert.ToUnsafeBytes(ResponseEntityTooLarge)
+				h.onError(conn, ErrResponseEntityTooLarge)
+			}
 			header := makeHeader(len(body), index)
 			copy(buffer[:], header[:])
 			copy(buffer[8:], body)
